@@ -132,5 +132,59 @@ func c01ExtraSpecs(c *core.Check, rng *rand.Rand) ([]*aspec.ASpec, []string) {
 		a.Paths = []aspec.PathItem{{Template: t1, Ops: []aspec.Op{simpleOp("GET", t1)}}, {Template: t2, Ops: []aspec.Op{simpleOp("GET", t2)}}}
 		add("router:static-and-variable-child-same-name", a)
 	}
+	{
+		// an alias of a component response whose JSON body is an inline object
+		a, op := mk()
+		body := objSchema(aspec.Prop{Name: "ok", Schema: aspec.Schema{K: "bool"}, Req: true})
+		a.Responses = []aspec.NamedResponse{{Name: "Base", R: &aspec.Response{Desc: "b", Body: aspec.Body{K: "json", Schema: &body}}}, {Name: "BaseAlias", Alias: "Base"}}
+		op.Responses = []aspec.RespRef{{Status: "200", Ref: "BaseAlias"}}
+		add("wireop:fixed@aliasResponseInlineObjectBody", a)
+	}
+	// random compositions: seeded operations of the wire universe one by one, and packed (client on)
+	nOps := 60
+	if c.Tier == "thorough" {
+		nOps = 400
+	}
+	var pre []core.GenJob
+	var ops []wireOp
+	var seeds []int64
+	for k := 0; k < nOps; k++ {
+		sd := rng.Int63()
+		seeds = append(seeds, sd)
+		a := wireCarrier(fmt.Sprintf("op%d", k), aspec.Base{Form: "none"})
+		w := randWireOp(a, k, rand.New(rand.NewSource(sd)))
+		ops = append(ops, w)
+		a.Paths = []aspec.PathItem{{Template: w.tmpl, Ops: []aspec.Op{w.op}}}
+		feature := "plain"
+		for _, rr := range w.op.Responses {
+			if strings.HasSuffix(rr.Ref, "Alias") {
+				for _, nr := range a.Responses {
+					if nr.Name == strings.TrimSuffix(rr.Ref, "Alias") && nr.R != nil && nr.R.Body.K == "json" && nr.R.Body.Schema != nil && nr.R.Body.Schema.K == "object" {
+						feature = "aliasResponseInlineObjectBody"
+					}
+				}
+			}
+		}
+		add(fmt.Sprintf("wireop:%d@%s", k, feature), a)
+		j := a.Job(fmt.Sprintf("op%d", k))
+		j.Package, j.Check = "gen", true
+		pre = append(pre, j)
+	}
+	pres := core.RunGenJobs(pre, 0)
+	var good []int
+	for i, r := range pres {
+		if r.Builds() {
+			good = append(good, i)
+		}
+	}
+	for start := 0; start+15 <= len(good); start += 15 {
+		a := wireCarrier(fmt.Sprintf("compose%d", start/15), baseForms()[(start/15)%len(baseForms())])
+		for _, k := range good[start : start+15] {
+			w := randWireOp(a, k, rand.New(rand.NewSource(seeds[k])))
+			a.Paths = append(a.Paths, aspec.PathItem{Template: w.tmpl, Ops: []aspec.Op{w.op}})
+		}
+		add(fmt.Sprintf("compose:%d@pack", start/15), a)
+	}
+	_ = ops
 	return specs, names
 }
